@@ -1539,6 +1539,8 @@ class Gen(object):
                 add(2, lambda: self.g_shallow(('flatten', 'fxp_like')), 'derive_copy')
                 add(2, self.g_sort_inplace, 'mutate_index')
             if prop == 'C02':
+                if p.get('big_arrays'):
+                    add(2, self.g_big_write)
                 add(4, self.g_shallow)
                 add(3, self.g_big_store)
                 add(1, self.g_sort_inplace, 'derive_index')
